@@ -126,6 +126,30 @@ func (c07) Gen(rng *rand.Rand, tier string, emit func(string)) {
 	for k := 0; k < 8; k++ {
 		emit(fmt.Sprintf("annkinds %d", k))
 	}
+	// annotation values with sharing (model: Model/SeqAnnTree.lean): nested containers edited in place after Copy / rc / sub
+	for _, h := range []string{
+		"annh new:a set:a:m:M(x=i1,y=i2) derive:a:b:copy edit:b:m:x:i100 edit:a:m:new:i5",
+		"annh new:a set:a:m:M(l=S(i1,stwo,M(z=i26,y=i2)),m=M(deep=S(sd))) derive:a:b:rc edit:b:m/l/2:z:i0 edit:b:m/l:0:sedited edit:a:m/m:deep:i1 derive:b:c:csub edit:c:m:l:i3 recycle:b new:d set:d:m:M(q=i9)",
+		"annh new:a set:a:s:S(S(i1,i2),S(i3)) set:a:t:S(su,sv) set:a:arr:A7.8.9 set:a:n:i3 derive:a:b:sub edit:b:s/0:1:i77 edit:b:t:0:sedited edit:a:-:n:i4 recycle:a new:c set:c:s:S(i5)",
+		"annh new:a derive:a:b:copy edit:b:-:k:i1 set:a:merged_sample:M(s1=i4) derive:a:c:copy edit:c:merged_sample:s1:i1004 recycle:c derive:a:d:rc",
+		"annh new:a set:a:m:M(a=sx) derive:a:b:copy recycle:a new:c set:c:m:M(a=sy) edit:b:m:a:sedited",
+		"annh new:a new:a",
+		"annh new:a derive:a:b:copy derive:a:b:rc",
+		"annh new:a edit:a:nokey:x:i1",
+		// mutator histories compared with the heap model: Clear then Write appends IN PLACE (len < cap), SetSequence, Subsequence after mutators
+		"mut new:a:6163677461:- copy:a:b clear:a write:a:7474:- sub:a:c:1:2:0 rc:a:d write:b:6767:- setseq:a:41434754 rci:a sub:a:e:3:1:1",
+		"mut new:a:61636774:01020304 setmm:a:2 sub:a:b:1:3:0 rc:b:c sub:a:d:3:2:1 rci:d clear:d writestring:d:6163:0506 setmm:d:1 rc:d:e",
+		"mut new:a:6163:- join:a:a join:a:a rc:a:b recycle:a new:c:74747474:-",
+	} {
+		emit(h)
+	}
+	na := 150
+	if tier == "thorough" {
+		na = 1200
+	}
+	for i := 0; i < na; i++ {
+		emit(c07GenAnn(rng, 5+rng.Intn(20)))
+	}
 	nw := 400
 	if tier == "thorough" {
 		nw = 3000
@@ -542,6 +566,8 @@ func (c07) Exec(c string) (string, []Fail) {
 			return c07Heap(f[1:], fail)
 		case f[0] == "mut":
 			return c07Mut(f[1:], fail)
+		case f[0] == "annh":
+			return c07AnnHist(f[1:], fail)
 		case f[0] == "hist":
 			objs := map[string]*obiseq.BioSequence{}
 			var names []string
@@ -1289,6 +1315,23 @@ func c07Mut(ops []string, fail c07failf) string {
 				return "bad-op"
 			}
 			o.SetQualities(q)
+		case a[0] == "sub" && len(a) == 6:
+			from, e1 := strconv.Atoi(a[3])
+			to, e2 := strconv.Atoi(a[4])
+			if e1 != nil || e2 != nil || objs[a[2]] != nil {
+				return "bad-op"
+			}
+			if sb, err := o.Subsequence(from, to, a[5] == "1"); err == nil {
+				objs[a[2]] = sb
+				stat("mutsub:ok")
+			}
+			target = a[2]
+		case a[0] == "setseq" && len(a) == 3:
+			sq, ok := unhx(a[2])
+			if !ok {
+				return "bad-op"
+			}
+			o.SetSequence(sq)
 		case a[0] == "setmm" && len(a) == 3:
 			p, _ := strconv.Atoi(a[2])
 			o.SetAttribute("pairing_mismatches", map[string]int{"(a:30)->(c:20)": p})
@@ -1317,7 +1360,519 @@ func c07Mut(ops []string, fail c07failf) string {
 			c07RcLaw(x, n, op, fail)
 		}
 	}
-	return "ok"
+	// what every live object shows at the end: compared with the heap model of the mutators (Model/SeqHeapMut.lean)
+	var names []string
+	for n := range objs {
+		names = append(names, n)
+	}
+	sort.Strings(names)
+	var sb []string
+	for _, n := range names {
+		sb = append(sb, n+"="+c07View(objs[n]))
+	}
+	return strings.Join(sb, " ")
+}
+
+// ---- annotation values with sharing (Model/SeqAnnTree.lean) ----
+
+// c07Lit parses M(k=lit,...), S(lit,...), i5, sab, A1.2.3 into the Go value an obitools command would store:
+// maps of ints are map[string]int, of strings map[string]string, otherwise map[string]interface{}; slices alike.
+func c07Lit(w string) (interface{}, bool) {
+	if len(w) == 0 {
+		return nil, false
+	}
+	split := func(body string) []string {
+		var out []string
+		depth, start := 0, 0
+		for i := 0; i < len(body); i++ {
+			switch body[i] {
+			case '(':
+				depth++
+			case ')':
+				depth--
+			case ',':
+				if depth == 0 {
+					out = append(out, body[start:i])
+					start = i + 1
+				}
+			}
+		}
+		return append(out, body[start:])
+	}
+	switch {
+	case w[0] == 'i':
+		v, err := strconv.Atoi(w[1:])
+		return v, err == nil
+	case w[0] == 's':
+		return w[1:], true
+	case w[0] == 'A':
+		var arr [3]int
+		parts := strings.Split(w[1:], ".")
+		if len(parts) != 3 {
+			return nil, false
+		}
+		for i, p := range parts {
+			v, err := strconv.Atoi(p)
+			if err != nil {
+				return nil, false
+			}
+			arr[i] = v
+		}
+		return arr, true
+	case strings.HasPrefix(w, "M(") && strings.HasSuffix(w, ")"):
+		body := w[2 : len(w)-1]
+		keys := []string{}
+		vals := []interface{}{}
+		if body != "" {
+			for _, e := range split(body) {
+				i := strings.IndexByte(e, '=')
+				if i < 0 {
+					return nil, false
+				}
+				v, ok := c07Lit(e[i+1:])
+				if !ok {
+					return nil, false
+				}
+				keys = append(keys, e[:i])
+				vals = append(vals, v)
+			}
+		}
+		allInt, allStr := len(vals) > 0, len(vals) > 0
+		for _, v := range vals {
+			if _, ok := v.(int); !ok {
+				allInt = false
+			}
+			if _, ok := v.(string); !ok {
+				allStr = false
+			}
+		}
+		switch {
+		case allInt && len(keys)%2 == 1:
+			m := obiseq.StatsOnValues{}
+			for i, k := range keys {
+				m[k] = vals[i].(int)
+			}
+			return m, true
+		case allInt:
+			m := map[string]int{}
+			for i, k := range keys {
+				m[k] = vals[i].(int)
+			}
+			return m, true
+		case allStr:
+			m := map[string]string{}
+			for i, k := range keys {
+				m[k] = vals[i].(string)
+			}
+			return m, true
+		}
+		m := map[string]interface{}{}
+		for i, k := range keys {
+			m[k] = vals[i]
+		}
+		return m, true
+	case strings.HasPrefix(w, "S(") && strings.HasSuffix(w, ")"):
+		body := w[2 : len(w)-1]
+		vals := []interface{}{}
+		if body != "" {
+			for _, e := range split(body) {
+				v, ok := c07Lit(e)
+				if !ok {
+					return nil, false
+				}
+				vals = append(vals, v)
+			}
+		}
+		allInt, allStr, allIS := len(vals) > 0, len(vals) > 0, len(vals) > 0
+		for _, v := range vals {
+			if _, ok := v.(int); !ok {
+				allInt = false
+			}
+			if _, ok := v.(string); !ok {
+				allStr = false
+			}
+			if _, ok := v.([]int); !ok {
+				allIS = false
+			}
+		}
+		switch {
+		case allInt:
+			sl := make([]int, len(vals), len(vals)+3) // spare capacity, as a slice that was appended to
+			for i := range vals {
+				sl[i] = vals[i].(int)
+			}
+			return sl, true
+		case allStr:
+			sl := make([]string, len(vals))
+			for i := range vals {
+				sl[i] = vals[i].(string)
+			}
+			return sl, true
+		case allIS:
+			sl := make([][]int, len(vals))
+			for i := range vals {
+				sl[i] = vals[i].([]int)
+			}
+			return sl, true
+		}
+		return vals, true
+	}
+	return nil, false
+}
+
+func c07ShowLit(v interface{}) string {
+	showMap := func(keys []string, get func(string) interface{}) string {
+		sort.Strings(keys)
+		var es []string
+		for _, k := range keys {
+			es = append(es, k+"="+c07ShowLit(get(k)))
+		}
+		return "M(" + strings.Join(es, ",") + ")"
+	}
+	switch t := v.(type) {
+	case int:
+		return "i" + strconv.Itoa(t)
+	case string:
+		return "s" + t
+	case [3]int:
+		return fmt.Sprintf("A%d.%d.%d", t[0], t[1], t[2])
+	case map[string]int:
+		var ks []string
+		for k := range t {
+			ks = append(ks, k)
+		}
+		return showMap(ks, func(k string) interface{} { return t[k] })
+	case obiseq.StatsOnValues:
+		var ks []string
+		for k := range t {
+			ks = append(ks, k)
+		}
+		return showMap(ks, func(k string) interface{} { return t[k] })
+	case map[string]string:
+		var ks []string
+		for k := range t {
+			ks = append(ks, k)
+		}
+		return showMap(ks, func(k string) interface{} { return t[k] })
+	case map[string]interface{}:
+		var ks []string
+		for k := range t {
+			ks = append(ks, k)
+		}
+		return showMap(ks, func(k string) interface{} { return t[k] })
+	case []int:
+		var es []string
+		for _, x := range t {
+			es = append(es, c07ShowLit(x))
+		}
+		return "S(" + strings.Join(es, ",") + ")"
+	case []string:
+		var es []string
+		for _, x := range t {
+			es = append(es, c07ShowLit(x))
+		}
+		return "S(" + strings.Join(es, ",") + ")"
+	case [][]int:
+		var es []string
+		for _, x := range t {
+			es = append(es, c07ShowLit(x))
+		}
+		return "S(" + strings.Join(es, ",") + ")"
+	case []interface{}:
+		var es []string
+		for _, x := range t {
+			es = append(es, c07ShowLit(x))
+		}
+		return "S(" + strings.Join(es, ",") + ")"
+	}
+	return fmt.Sprintf("?%T", v)
+}
+
+// c07EditIn: the in-place edit node[k] = v of a map or slice value (no SetAttribute: the container is edited).
+func c07EditIn(node interface{}, k string, v interface{}) bool {
+	idx, ierr := strconv.Atoi(k)
+	switch t := node.(type) {
+	case obiseq.Annotation:
+		t[k] = v
+	case map[string]interface{}:
+		t[k] = v
+	case map[string]int:
+		x, ok := v.(int)
+		if !ok {
+			return false
+		}
+		t[k] = x
+	case obiseq.StatsOnValues:
+		x, ok := v.(int)
+		if !ok {
+			return false
+		}
+		t[k] = x
+	case map[string]string:
+		x, ok := v.(string)
+		if !ok {
+			return false
+		}
+		t[k] = x
+	case []int:
+		x, ok := v.(int)
+		if !ok || ierr != nil {
+			return false
+		}
+		if idx >= 0 && idx < len(t) {
+			t[idx] = x
+		}
+	case []string:
+		x, ok := v.(string)
+		if !ok || ierr != nil {
+			return false
+		}
+		if idx >= 0 && idx < len(t) {
+			t[idx] = x
+		}
+	case []interface{}:
+		if ierr != nil {
+			return false
+		}
+		if idx >= 0 && idx < len(t) {
+			t[idx] = v
+		}
+	default:
+		return false
+	}
+	return true
+}
+
+func c07Child(node interface{}, k string) (interface{}, bool) {
+	idx, ierr := strconv.Atoi(k)
+	inb := func(n int) bool { return ierr == nil && idx >= 0 && idx < n }
+	switch t := node.(type) {
+	case obiseq.Annotation:
+		v, ok := t[k]
+		return v, ok
+	case map[string]interface{}:
+		v, ok := t[k]
+		return v, ok
+	case []interface{}:
+		if inb(len(t)) {
+			return t[idx], true
+		}
+	case [][]int:
+		if inb(len(t)) {
+			return t[idx], true
+		}
+	}
+	return nil, false
+}
+
+// c07AnnHist: histories over annotation VALUES (nested maps / slices / arrays / scalars): SetAttribute, Copy /
+// ReverseComplement(false) / Subsequence / circular Subsequence, in-place edits of nested containers, Recycle.
+// After every step every object other than the target must show what it showed (oracle annh.alias); the final
+// state is compared with Model/SeqAnnTree.lean.
+func c07AnnHist(ops []string, fail c07failf) string {
+	objs := map[string]*obiseq.BioSequence{}
+	show := func(o *obiseq.BioSequence) string {
+		var ks []string
+		if o.HasAnnotation() {
+			for k := range o.Annotations() {
+				ks = append(ks, k)
+			}
+		}
+		sort.Strings(ks)
+		var es []string
+		for _, k := range ks {
+			es = append(es, k+"="+c07ShowLit(o.Annotations()[k]))
+		}
+		return "{" + strings.Join(es, ";") + "}"
+	}
+	for _, op := range ops {
+		a := strings.Split(op, ":")
+		stat("annhop:" + a[0])
+		before := map[string]string{}
+		for n, o := range objs {
+			before[n] = show(o)
+		}
+		target := ""
+		if len(a) > 1 {
+			target = a[1]
+		}
+		switch {
+		case a[0] == "new" && len(a) == 2:
+			if objs[a[1]] != nil {
+				return "bad-op"
+			}
+			objs[a[1]] = obiseq.NewBioSequence(a[1], []byte("acgtacgtac"), "")
+		case a[0] == "set" && len(a) == 4:
+			v, ok := c07Lit(a[3])
+			if !ok || objs[a[1]] == nil {
+				return "bad-op"
+			}
+			objs[a[1]].SetAttribute(a[2], v)
+		case a[0] == "derive" && len(a) == 4:
+			o := objs[a[1]]
+			if o == nil || objs[a[2]] != nil {
+				return "bad-op"
+			}
+			var d *obiseq.BioSequence
+			switch a[3] {
+			case "copy":
+				d = o.Copy()
+			case "rc":
+				d = o.ReverseComplement(false)
+			case "sub": // whole window, so that derived objects can be derived from again
+				d, _ = o.Subsequence(0, o.Len(), false)
+			case "csub": // from = to: the stitched (wrapping) path of Subsequence, a full rotation
+				d, _ = o.Subsequence(o.Len()-1, o.Len()-1, true)
+			default:
+				return "bad-op"
+			}
+			if d == nil {
+				return "bad-op"
+			}
+			objs[a[2]] = d
+			target = a[2]
+		case a[0] == "edit" && len(a) == 5:
+			o := objs[a[1]]
+			v, ok := c07Lit(a[4])
+			if o == nil || !ok {
+				return "bad-op"
+			}
+			var node interface{} = o.Annotations()
+			if a[2] != "-" {
+				for _, k := range strings.Split(a[2], "/") {
+					nx, ok := c07Child(node, k)
+					if !ok {
+						return "bad-op"
+					}
+					node = nx
+				}
+			}
+			if !c07EditIn(node, a[3], v) {
+				return "bad-op"
+			}
+		case a[0] == "recycle" && len(a) == 2:
+			if objs[a[1]] == nil {
+				return "bad-op"
+			}
+			objs[a[1]].Recycle()
+			delete(objs, a[1])
+			delete(before, a[1])
+		default:
+			return "bad-op"
+		}
+		for n, v := range before {
+			if n != target && show(objs[n]) != v {
+				fail("annh.alias", "operation %s changed the annotations of %s from %s to %s", op, n, v, show(objs[n]))
+			}
+		}
+	}
+	var names []string
+	for n := range objs {
+		names = append(names, n)
+	}
+	sort.Strings(names)
+	var sb []string
+	for _, n := range names {
+		sb = append(sb, n+show(objs[n]))
+	}
+	return strings.Join(sb, " ")
+}
+
+func c07GenAnn(rng *rand.Rand, steps int) string {
+	type ob struct {
+		name  string
+		paths map[string]string // path -> kind of the container at that path: mi ms mx si ss sx (map/slice of int/string/any), top = "-"
+	}
+	lits := []struct {
+		lit   string
+		paths map[string]string
+	}{
+		{"M(a=i1,b=i2)", map[string]string{"": "mi"}},
+		{"M(s1=i4)", map[string]string{"": "mi"}},
+		{"M(a=sx)", map[string]string{"": "ms"}},
+		{"S(i1,i2,i3)", map[string]string{"": "si"}},
+		{"S(su,sv)", map[string]string{"": "ss"}},
+		{"S(S(i1,i2),S(i3))", map[string]string{"0": "si", "1": "si"}},
+		{"M(l=S(i1,stwo,M(z=i26,y=i2)),m=M(deep=S(sd)))", map[string]string{"": "mx", "l": "sx", "l/2": "mi", "m": "mx"}},
+		{"A7.8.9", nil}, {"i3", nil}, {"sname", nil},
+	}
+	var live []*ob
+	next := 0
+	var ops []string
+	newObj := func() {
+		next++
+		n := fmt.Sprintf("o%d", next)
+		ops = append(ops, "new:"+n)
+		live = append(live, &ob{n, map[string]string{}})
+	}
+	newObj()
+	for len(ops) < steps {
+		if len(live) == 0 || (len(live) < 6 && rng.Intn(9) == 0) {
+			newObj()
+			continue
+		}
+		i := rng.Intn(len(live))
+		x := live[i]
+		switch rng.Intn(10) {
+		case 0, 1, 2:
+			key := []string{"k1", "k2", "merged_sample", "k3"}[rng.Intn(4)]
+			l := lits[rng.Intn(len(lits))]
+			ops = append(ops, fmt.Sprintf("set:%s:%s:%s", x.name, key, l.lit))
+			for p := range x.paths {
+				if p == key || strings.HasPrefix(p, key+"/") {
+					delete(x.paths, p)
+				}
+			}
+			for p, k := range l.paths {
+				if p == "" {
+					x.paths[key] = k
+				} else {
+					x.paths[key+"/"+p] = k
+				}
+			}
+		case 3, 4:
+			next++
+			n := fmt.Sprintf("o%d", next)
+			ops = append(ops, fmt.Sprintf("derive:%s:%s:%s", x.name, n, []string{"copy", "rc", "sub", "csub"}[rng.Intn(4)]))
+			cp := map[string]string{}
+			for p, k := range x.paths {
+				cp[p] = k
+			}
+			live = append(live, &ob{n, cp})
+		case 5, 6, 7, 8:
+			if len(x.paths) == 0 {
+				ops = append(ops, fmt.Sprintf("edit:%s:-:top%d:i%d", x.name, rng.Intn(2), rng.Intn(100)))
+				continue
+			}
+			var ps []string
+			for p := range x.paths {
+				ps = append(ps, p)
+			}
+			sort.Strings(ps)
+			p := ps[rng.Intn(len(ps))]
+			k := x.paths[p]
+			key := []string{"a", "z", "new"}[rng.Intn(3)]
+			if k[0] == 's' {
+				key = strconv.Itoa(rng.Intn(4))
+			}
+			val := fmt.Sprintf("i%d", 1000+rng.Intn(100))
+			if k[1] == 's' {
+				val = "sedited"
+			}
+			ops = append(ops, fmt.Sprintf("edit:%s:%s:%s:%s", x.name, p, key, val))
+			// a scalar written over a nested container removes the paths below it
+			sub := p + "/" + key
+			for q := range x.paths {
+				if q == sub || strings.HasPrefix(q, sub+"/") {
+					delete(x.paths, q)
+				}
+			}
+		case 9:
+			ops = append(ops, "recycle:"+x.name)
+			live = append(live[:i], live[i+1:]...)
+		}
+	}
+	return "annh " + strings.Join(ops, " ")
 }
 
 func c07RandQual(rng *rand.Rand, n int) string {
@@ -1501,7 +2056,34 @@ func c07GenMut(rng *rand.Rand, steps int) string {
 			ops = append(ops, "recycle:"+x.name)
 			live = append(live[:i], live[i+1:]...)
 		case 13:
-			ops = append(ops, "rci:"+x.name)
+			switch rng.Intn(3) {
+			case 0:
+				ops = append(ops, "rci:"+x.name)
+			case 1:
+				if x.l == 0 {
+					continue
+				}
+				f, t := rng.Intn(x.l), rng.Intn(x.l+1)
+				c := rng.Intn(2)
+				n := fresh()
+				ops = append(ops, fmt.Sprintf("sub:%s:%s:%d:%d:%d", x.name, n, f, t, c))
+				if c == 1 || f < t {
+					nl := t - f
+					if f >= t {
+						nl = x.l - f + t
+					}
+					live = append(live, ob{n, nl, x.q})
+				} else {
+					next--
+				}
+			case 2:
+				if x.q {
+					continue
+				}
+				k := rng.Intn(8)
+				ops = append(ops, fmt.Sprintf("setseq:%s:%s", x.name, hx(c07RandSeq(rng, k, true))))
+				x.l = k
+			}
 		}
 	}
 	return "mut " + strings.Join(ops, " ")
